@@ -32,3 +32,75 @@ theorem Cfg.quorums_intersect (c : Cfg) (hne : c.incoming ≠ [] ∨ c.outgoing 
     exact ⟨v, hv1, hv2⟩
 
 end RaftModel.P
+
+namespace RaftModel.P
+
+/-- pigeonhole: two duplicate-free sub-lists of a duplicate-free list that are together longer than
+it share an element -/
+theorem sublists_meet (U A B : List Nat) (hA : A ⊆ U) (hB : B ⊆ U)
+    (hAn : A.Nodup) (hBn : B.Nodup) (hlen : U.length < A.length + B.length) : ∃ v, v ∈ A ∧ v ∈ B := by
+  apply Classical.byContradiction
+  intro hno
+  have hdis : ∀ a ∈ A, ∀ b ∈ B, a ≠ b := by
+    intro a ha b hb hab
+    subst hab
+    exact hno ⟨a, ha, hb⟩
+  have hnd : (A ++ B).Nodup := List.nodup_append.2 ⟨hAn, hBn, hdis⟩
+  have hsub : A ++ B ⊆ U := by
+    intro x hx
+    rcases List.mem_append.1 hx with h | h
+    · exact hA h
+    · exact hB h
+  have := hnd.length_le_of_subset hsub
+  simp only [List.length_append] at this
+  omega
+
+theorem halfMeets_intersect (h1 h2 q1 q2 : List Nat) (hm : halfMeets h1 h2 = true)
+    (a1 : majOf h1 q1 = true) (a2 : majOf h2 q2 = true) : ∃ v, v ∈ q1 ∧ v ∈ q2 := by
+  unfold halfMeets at hm
+  simp only [Bool.and_eq_true, decide_eq_true_eq, Bool.not_eq_true'] at hm
+  obtain ⟨⟨⟨⟨_, _⟩, hn1⟩, hn2⟩, hlt⟩ := hm
+  unfold majOf countIn at a1 a2
+  simp only [decide_eq_true_eq] at a1 a2
+  have hU1 : ∀ x, x ∈ h1.filter (fun v => q1.contains v) → x ∈ h1 ++ h2.filter (fun v => !h1.contains v) :=
+    fun x hx => List.mem_append_left _ ((List.mem_filter.1 hx).1)
+  have hU2 : ∀ x, x ∈ h2.filter (fun v => q2.contains v) → x ∈ h1 ++ h2.filter (fun v => !h1.contains v) := by
+    intro x hx
+    have hx2 := (List.mem_filter.1 hx).1
+    by_cases h : x ∈ h1
+    · exact List.mem_append_left _ h
+    · exact List.mem_append_right _ (List.mem_filter.2 ⟨hx2, by simpa using h⟩)
+  obtain ⟨v, hv1, hv2⟩ := sublists_meet (h1 ++ h2.filter (fun v => !h1.contains v)) _ _ hU1 hU2
+    (hn1.filter _) (hn2.filter _) (by rw [List.length_append]; omega)
+  refine ⟨v, ?_, ?_⟩
+  · have := (List.mem_filter.1 hv1).2; simpa using this
+  · have := (List.mem_filter.1 hv2).2; simpa using this
+
+/-- **quorums of adjacent configurations meet** -/
+theorem adj_intersect (c1 c2 : Cfg) (h : adjOk c1 c2 = true) (q1 q2 : List Nat)
+    (h1 : c1.isQuorum q1 = true) (h2 : c2.isQuorum q2 = true) : ∃ v, v ∈ q1 ∧ v ∈ q2 := by
+  unfold adjOk at h
+  unfold Cfg.isQuorum at h1 h2
+  simp only [Bool.and_eq_true, Bool.or_eq_true, List.isEmpty_iff] at h1 h2 h
+  have ne_of : ∀ a b : List Nat, halfMeets a b = true → a ≠ [] ∧ b ≠ [] := by
+    intro a b hm
+    unfold halfMeets at hm
+    simp only [Bool.and_eq_true, decide_eq_true_eq, Bool.not_eq_true', List.isEmpty_eq_false_iff] at hm
+    exact ⟨hm.1.1.1.1, hm.1.1.1.2⟩
+  rcases h with ((h | h) | h) | h
+  · have := ne_of _ _ h
+    exact halfMeets_intersect _ _ q1 q2 h (h1.1.resolve_left this.1) (h2.1.resolve_left this.2)
+  · have := ne_of _ _ h
+    exact halfMeets_intersect _ _ q1 q2 h (h1.1.resolve_left this.1) (h2.2.resolve_left this.2)
+  · have := ne_of _ _ h
+    exact halfMeets_intersect _ _ q1 q2 h (h1.2.resolve_left this.1) (h2.1.resolve_left this.2)
+  · have := ne_of _ _ h
+    exact halfMeets_intersect _ _ q1 q2 h (h1.2.resolve_left this.1) (h2.2.resolve_left this.2)
+
+/-- `adjOk` is symmetric in what it gives: quorums meet either way round -/
+theorem adj_intersect' (c1 c2 : Cfg) (h : adjOk c1 c2 = true) (q1 q2 : List Nat)
+    (h1 : c1.isQuorum q1 = true) (h2 : c2.isQuorum q2 = true) : ∃ v, v ∈ q2 ∧ v ∈ q1 := by
+  obtain ⟨v, a, b⟩ := adj_intersect c1 c2 h q1 q2 h1 h2
+  exact ⟨v, b, a⟩
+
+end RaftModel.P
